@@ -298,6 +298,9 @@ func (c *Ctx) buildCLI() error {
 	c.CLI = filepath.Join(c.Work, "borno")
 	cmd := exec.Command("go", "build", "-o", c.CLI, "github.com/ah-naf/borno")
 	cmd.Dir = filepath.Join(verifRoot, "harness")
+	if d := os.Getenv("VERIF_HARNESS_DIR"); d != "" {
+		cmd.Dir = d // development: a copy of the harness module whose replace directive points at a scratch copy of the tree
+	}
 	cmd.Env = goEnv()
 	out, err := cmd.CombinedOutput()
 	if err != nil {
@@ -454,7 +457,7 @@ func main() {
 			runReplay(c, replay)
 			return
 		}
-		os.RemoveAll(filepath.Join(verifRoot, "replays", prop)) // replay files of earlier runs are stale
+		os.RemoveAll(filepath.Join(outRoot(), "replays", prop)) // replay files of earlier runs are stale
 		fn(c)
 	}()
 	code = c.finish(replay != "")
@@ -508,7 +511,7 @@ func (c *Ctx) finish(isReplay bool) int {
 		code = 2
 	}
 	if len(unknown) > 0 {
-		dir := filepath.Join(verifRoot, "replays", c.Prop)
+		dir := filepath.Join(outRoot(), "replays", c.Prop)
 		os.MkdirAll(dir, 0755)
 		sort.Slice(unknown, func(i, j int) bool { return unknown[i].Sig < unknown[j].Sig })
 		for i, v := range unknown {
@@ -538,9 +541,9 @@ func (c *Ctx) finish(isReplay bool) int {
 		c.cov("worker_restarts", c.Pool.Restarts)
 	}
 	if code != 2 {
-		os.MkdirAll(filepath.Join(verifRoot, "evidence"), 0755)
+		os.MkdirAll(filepath.Join(outRoot(), "evidence"), 0755)
 		b, _ := json.MarshalIndent(c.Ev, "", " ")
-		os.WriteFile(filepath.Join(verifRoot, "evidence", c.Prop+".json"), append(b, '\n'), 0644)
+		os.WriteFile(filepath.Join(outRoot(), "evidence", c.Prop+".json"), append(b, '\n'), 0644)
 	}
 	fmt.Printf("%s %s seed=%d: %d violation signature(s), %d known-finding case(s), exit %d, %.1fs\n", c.Prop, c.Tier, c.Seed,
 		len(unknown), nKnownCases, code, c.Ev.WallS)
@@ -575,3 +578,12 @@ func runReplay(c *Ctx, path string) {
 }
 
 var replayers = map[string]func(c *Ctx, v *Violation){}
+
+// outRoot: where replay files and evidence go - the framework root, except in development runs against a scratch copy
+// of the tree (VERIF_REPO), whose results must not overwrite the evidence of /repo itself.
+func outRoot() string {
+	if os.Getenv("VERIF_REPO") != "" {
+		return filepath.Join(verifRoot, ".work", "dev."+filepath.Base(os.Getenv("VERIF_REPO")))
+	}
+	return verifRoot
+}
